@@ -107,6 +107,9 @@ class G:
         t = self.tok("F")
         if r.chance(1, 6):
             t = t + "." + self.tok("F")
+        if self.exotic and r.chance(1, 5):
+            # keys that need escaping when printed: control characters, quote, backslash, HTML, non-ASCII, U+2028
+            t = t + r.choice(["\n", "\t", "\u0001", "\"", "\\", "\\u0041", "<&>", "é", "\u2028", "\U0001F600", " ", "\r", "\u007f", "/"])
         self.fields.append(t)
         return t
 
@@ -259,7 +262,16 @@ class G:
     # ---------------------------------------------------------------- search
     def search_op(self, depth=0):
         r = self.r
-        k = r.below(12)
+        k = r.below(13)
+        if k == 12:
+            # moreLikeThis takes USER DOCUMENTS: their field names are arbitrary, also ones that look like search options / operators
+            def udoc(d=0):
+                o = Obj()
+                for _ in range(1 + r.below(3)):
+                    name = r.choice([self.field(), self.field(), "title", "numBuckets", "score", "path", "type", "index", "text", "limit", "query"])
+                    o.set(name, udoc(d + 1) if (d < 1 and r.chance(1, 3)) else self.sstr())
+                return o
+            return Obj([("moreLikeThis", Obj([("like", udoc() if r.chance(1, 2) else [udoc(), udoc()])]))])
         if k < 4:
             op = r.choice(SEARCH_TEXT_OPS)
             body = Obj([("query", self.sstr() if r.chance(2, 3) else [self.sstr(), self.sstr()]), ("path", self.field() if r.chance(2, 3) else [self.field(), self.field()])])
@@ -414,11 +426,11 @@ class G:
     # ---------------------------------------------------------------- namespaces
     def dbname(self):
         t = self.tok("NS")
-        return r_choice_fix(self.r, [t, t, t + "_db", "dé" + t])
+        return r_choice_fix(self.r, [t, t, t + "_db", "dé" + t, "REDACTED_" + t, "X_" + t])
 
     def coll(self):
         t = self.tok("NS")
-        return r_choice_fix(self.r, [t, t, t + ".sub", "system." + t, t + "_c"])
+        return r_choice_fix(self.r, [t, t, t + ".sub", "system." + t, t + "_c", "REDACTED_" + t, "X_" + t + ".sub", "p.q_r_" + t])
 
     # ---------------------------------------------------------------- commands
     def command(self):
@@ -487,6 +499,14 @@ class G:
             attr.set("error", "OperationFailed: zqerrtext")
         else:
             attr.set("command", cmd)
+        if r.chance(1, 12):
+            # a command attribute of the wrong kind in front of the real one(s)
+            for ck in ("originatingCommand", "cmd"):
+                if not attr.has(ck) and r.chance(1, 2):
+                    a2 = Obj([(ck, r.choice([None, "zqnotadoc", Num("7"), [], True]))])
+                    for kk, vv in attr:
+                        a2.set(kk, vv)
+                    attr = a2
         ps = r.below(5)
         if ps == 0:
             attr.set("planSummary", "COLLSCAN")
@@ -650,6 +670,11 @@ def malformed(rng, good_line):
            b'{"c":"COMMAND","attr":{"command":{"pipeline":[1,"s",null,[],[[]],{"$match":5},{"$facet":7},{"$facet":{"a":1}},{"$lookup":[]},{"$search":[{"text":1}]}]}}}',
            b'{"c":"QUERY","attr":{"command":{"filter":[],"query":1,"sort":"x","update":2,"updates":{},"q":[],"u":"s","documents":[1],"insert":1,"pipeline":{},"deletes":5,"arrayFilters":{}}}}',
            b'{"c":"WRITE","attr":{"originatingCommand":[1],"cmd":"x","command":null,"planSummary":5,"ns":{}}}',
+           b'{"c":"COMMAND","attr":{"originatingCommand":null,"cmd":"x","command":{"find":"c","filter":{"a":"zqsecretafterbadattr"}}}}',
+           b'{"c":"COMMAND","attr":{"cmd":[],"command":{"find":"c","filter":{"a":"zqsecretafterbadattr"}},"originatingCommand":{"find":"c","filter":{"b":"zqsecret2"}}}}',
+           b'  ' + g, b'\t' + g, g + b' ', g + b'\t\t', b' ' + g + b' \r', b'\r' + g, b'\n' + g, g + b'\r\r', b'\x0b' + g, b'\x0c' + g, b'\xc2\xa0' + g, b'\xef\xbb\xbf' + g,
+           b'{"a\\nb":1,"c\\\\d":{"e\\u0000f":[{"g\\"h":2}]},"\\u2028":3,"<k>":4,"k\\u00e9":5}',
+           b'{"c":"COMMAND","attr":{"command":{"filter":{"k\\ney":"v","back\\\\slash":"w","q\\"uote":{"$in":["x"]},"tab\\tkey":1}}}}',
            ]
     # truncations of a real line
     for _ in range(12):
